@@ -92,7 +92,7 @@ func (d Dict) Hash(seed uintptr) uintptr {
 	// TODO: Optimize.
 	h := seed
 	for e := d.Enumerator(); e.MoveNext(); {
-		h ^= e.Current().Hash(seed)
+		h ^= hashMember(e.Current(), seed)
 	}
 	return h
 }
